@@ -79,6 +79,8 @@ CFG = {
         "Swat4.C01.decimal_bytes",
         "Swat4.C01.decimal_no_plus",
         "Swat4.C01.decimal_eq_renderInt",
+        "Swat4.C01.facts_browser_read_buffer",
+        "Swat4.C01.facts_partial_ops_browser",
     ],
     "shards": (4, 16),
     "nontrivial": _c01_nontrivial,
